@@ -1,0 +1,147 @@
+// Copyright (c) 2026 10X Genomics, Inc. All rights reserved.
+
+//go:build verif
+
+package core
+
+// Hooks for the external verification harness, property C12, third group:
+// the reconciliation of a cluster-mode pipestance with the scheduler's queue
+// (Pipestance.queryQueue -> RemoteJobManager.checkQueue ->
+// Metadata.failNotRunning, and Node.refreshState -> Metadata.endRefresh).
+// This file is only compiled with `-tags verif`.
+
+import (
+	"context"
+	"os"
+	"path"
+	"strconv"
+	"time"
+)
+
+// VerifQueueRig is a pipestance with one running cluster-mode stage (one fork,
+// nchunks chunks) whose job manager has a queue-query command.
+type VerifQueueRig struct {
+	ps     *Pipestance
+	node   *Node
+	fork   *Fork
+	chunks []*Metadata
+}
+
+// VerifNewQueueRig builds the rig under dir.  queueQueryCmd is looked up in
+// util.RelPath("../jobmanagers") like a configured job mode's queue_query.
+func VerifNewQueueRig(jm *RemoteJobManager, queueQueryCmd string, grace time.Duration,
+	dir, fqname string, nchunks int) (*VerifQueueRig, error) {
+	jm.config.queueQueryCmd = queueQueryCmd
+	jm.config.queueQueryGrace = grace
+	rtOpts := DefaultRuntimeOptions()
+	rtOpts.JobMode = "verif"
+	rt := &Runtime{Config: &rtOpts, JobManager: jm}
+	journal := path.Join(dir, "journal")
+	if err := os.MkdirAll(journal, 0o755); err != nil {
+		return nil, err
+	}
+	top := &TopNode{rt: rt, fqname: fqname, journalPath: journal}
+	node := &Node{top: top}
+	mk := func(name, sub string) (*Metadata, error) {
+		md := NewMetadata(name, path.Join(dir, sub))
+		if err := md.mkdirs(); err != nil {
+			return nil, err
+		}
+		md.loadCache()
+		return md, nil
+	}
+	var err error
+	if node.metadata, err = mk(fqname, "node"); err != nil {
+		return nil, err
+	}
+	fork := &Fork{node: node}
+	if fork.metadata, err = mk(fqname+".fork0", "fork0"); err != nil {
+		return nil, err
+	}
+	if fork.split_metadata, err = mk(fqname+".fork0.split", "split"); err != nil {
+		return nil, err
+	}
+	if fork.join_metadata, err = mk(fqname+".fork0.join", "join"); err != nil {
+		return nil, err
+	}
+	rig := &VerifQueueRig{node: node, fork: fork}
+	for i := 0; i < nchunks; i++ {
+		md, err := mk(fqname+".fork0.chnk"+strconv.Itoa(i), "chnk"+strconv.Itoa(i))
+		if err != nil {
+			return nil, err
+		}
+		fork.chunks = append(fork.chunks, &Chunk{fork: fork, index: i, metadata: md})
+		rig.chunks = append(rig.chunks, md)
+	}
+	node.forks = []*Fork{fork}
+	node.frontierNodes = &threadSafeNodeMap{nodes: map[string]Nodable{fqname: node}}
+	psmd, err := mk(fqname+".pipestance", "ps")
+	if err != nil {
+		return nil, err
+	}
+	// this mrp holds the lock: not read-only
+	psmd.mutex.Lock()
+	psmd._cacheNoLock(Lock)
+	psmd.mutex.Unlock()
+	rig.ps = &Pipestance{node: node, metadata: psmd}
+	return rig, nil
+}
+
+// Chunks returns the chunk metadata objects.
+func (self *VerifQueueRig) Chunks() []*Metadata { return self.chunks }
+
+// QueryQueue calls Pipestance.queryQueue (what CheckHeartbeats does first) and
+// reports whether a query is in flight afterwards.
+func (self *VerifQueueRig) QueryQueue() bool {
+	self.ps.queryQueue(context.Background())
+	return self.QueryActive()
+}
+
+// QueryActive exposes queueCheckActive.
+func (self *VerifQueueRig) QueryActive() bool {
+	self.ps.queueCheckLock.Lock()
+	defer self.ps.queueCheckLock.Unlock()
+	return self.ps.queueCheckActive
+}
+
+// LastQueueCheck exposes lastQueueCheck.
+func (self *VerifQueueRig) LastQueueCheck() time.Time {
+	self.ps.queueCheckLock.Lock()
+	defer self.ps.queueCheckLock.Unlock()
+	return self.ps.lastQueueCheck
+}
+
+// JournalUpdate is what Node.refreshState does for a journal file of chunk i
+// (Chunk.updateState); Refresh is Node.refreshState itself.
+func (self *VerifQueueRig) JournalUpdate(chunk int, name MetadataFileName) {
+	self.fork.chunks[chunk].updateState(name, "")
+}
+
+func (self *VerifQueueRig) Refresh() { self.node.refreshState(false) }
+
+// NotRunningSince exposes the mark of chunk i.
+func (self *VerifQueueRig) NotRunningSince(chunk int) time.Time {
+	md := self.chunks[chunk]
+	md.mutex.Lock()
+	defer md.mutex.Unlock()
+	return md.notRunningSince
+}
+
+// ShiftClock makes everything the reconciliation remembers d older, which is
+// what the passing of d looks like to code that compares with time.Now().
+func (self *VerifQueueRig) ShiftClock(d time.Duration) {
+	self.ps.queueCheckLock.Lock()
+	if !self.ps.lastQueueCheck.IsZero() {
+		self.ps.lastQueueCheck = self.ps.lastQueueCheck.Add(-d)
+	}
+	self.ps.queueCheckLock.Unlock()
+	for _, n := range self.node.getFrontierNodes() {
+		for _, md := range n.collectMetadatas() {
+			md.mutex.Lock()
+			if !md.notRunningSince.IsZero() {
+				md.notRunningSince = md.notRunningSince.Add(-d)
+			}
+			md.mutex.Unlock()
+		}
+	}
+}
